@@ -1,4 +1,4 @@
-import HH.Generated.SourceFacts
+import HH.Props.FactsLib
 /-!
 # C16 â€” the portable path contains no unsafe code in any configuration
 
@@ -8,16 +8,7 @@ branches, macro bodies as token trees).  The theorems are decided by the kernel 
 fact table; they are cfg-independent because the translator does not evaluate cfg.
 -/
 namespace HH.C16
-open HH.Facts
-
-/-- the files of the portable path: the portable hasher, buffering, key, traits, the std adapter
-macros, the collection builder type, the crate root -/
-def portableFiles : List String := ["lib.rs", "portable.rs", "internal.rs", "key.rs", "traits.rs", "macros.rs", "hash.rs"]
-
-/-- files whose code `PortableHash` executes -/
-def coreFiles : List String := ["portable.rs", "internal.rs", "key.rs", "traits.rs", "macros.rs"]
-
-def inP (f : Fact) : Bool := portableFiles.contains f.file
+open HH.Facts HH.FactsLib
 
 /-- no `unsafe` token (block, fn, impl, trait, extern, inside macro bodies) in any portable file -/
 theorem no_unsafe : (facts.all fun f => !(inP f && f.kind == "unsafe")) = true := by decide +kernel
@@ -26,11 +17,14 @@ theorem no_unsafe' (f : Fact) (hf : f âˆˆ facts) (hp : inP f = true) : f.kind â‰
   have := List.all_eq_true.mp no_unsafe f hf
   intro hk; simp [hp, hk] at this
 
-/-- the only lint attributes in portable files are these three; in particular nothing re-allows
-`unsafe_code` (a new lint attribute must be judged: the check then inspects it) -/
-def allowedLints : List String := ["inner allow(non_snake_case)", "inner warn(missing_docs)", "inner deny(unsafe_code)"]
+/-- no lint attribute of a portable file mentions `unsafe_code` (directly or inside `cfg_attr`) except
+to deny or forbid it: nothing re-allows unsafe code -/
+def strictUnsafeLints : List String :=
+  ["inner deny(unsafe_code)", "inner forbid(unsafe_code)", "outer deny(unsafe_code)", "outer forbid(unsafe_code)"]
 theorem no_lint_override :
-    (facts.all fun f => !(inP f && f.kind == "lint") || allowedLints.contains f.detail) = true := by decide +kernel
+    (facts.all fun f => !(inP f && (f.kind == "lint" || f.kind == "crate_attr") && has f.detail "unsafe_code")
+      || strictUnsafeLints.contains f.detail || f.detail == "#![deny(unsafe_code)]" || f.detail == "#![forbid(unsafe_code)]") = true := by
+  decide +kernel
 
 /-- the crate root denies `unsafe_code` for every module that does not opt out -/
 theorem lib_denies_unsafe :
@@ -42,25 +36,24 @@ theorem no_unsafe_attr_or_extern :
     (facts.all fun f => !(inP f && (f.kind == "unsafe_attr" || f.kind == "extern_block" || f.kind == "ptr"))) = true := by
   decide +kernel
 
-/-- module closure: what the portable hasher's files import stays inside the portable path -/
-def allowedUses : List String :=
-  ["crate::internal::HashPacket", "crate::internal::PACKET_SIZE", "crate::key::Key", "crate::traits::HighwayHash",
-   "core::ops::Index", "super::*"]
+/-- module closure: what the portable hasher's files import stays inside the portable path (the
+crate's own unsafe-free modules, `core`, or the enclosing module in unit tests) -/
+def allowedUsePrefixes : List String := ["crate::internal::", "crate::key::", "crate::traits::", "crate::portable::", "core::", "super::"]
 theorem module_closure :
-    (facts.all fun f => !(coreFiles.contains f.file && f.kind == "use") || allowedUses.contains f.detail) = true := by
+    (facts.all fun f => !(coreFiles.contains f.file && f.kind == "use") || allowedUsePrefixes.any (startsWith f.detail Â·)) = true := by
   decide +kernel
 
-/-- macros invoked by the portable hasher's files: the crate's own two (defined in macros.rs, which
-contains no unsafe token by `no_unsafe`) and core assertion/formatting macros -/
-def allowedMacros : List String := ["impl_write", "impl_hasher", "debug_assert", "assert_eq", "assert", "vec"]
+/-- macros invoked by the portable hasher's files are never ones defined in a non-portable file of
+the crate (such as `x86/macros.rs`): they are the crate's own `impl_write!`/`impl_hasher!` (defined in
+macros.rs, free of unsafe tokens by `no_unsafe`) or macros of core/std -/
 theorem macro_closure :
-    (facts.all fun f => !(coreFiles.contains f.file && f.kind == "macro") || allowedMacros.contains f.detail) = true := by
+    (facts.all fun m => !(coreFiles.contains m.file && m.kind == "macro") ||
+      facts.all fun d => !(d.kind == "macro_def" && d.detail == m.detail && !inP d)) = true := by
   decide +kernel
 
 /-- no `#[path]` redirection: the modules of the crate root are the files they name -/
-def allowedMods : List String := ["macros", "builder", "hash", "internal", "key", "portable", "traits", "aarch64", "wasm", "x86"]
 theorem no_path_redirect :
-    (facts.all fun f => !(f.file == "lib.rs" && f.kind == "mod") || allowedMods.contains f.detail) = true := by
+    (facts.all fun f => !(f.kind == "mod" && has f.detail "path=")) = true := by
   decide +kernel
 
 /-- non-vacuity: the table is not empty and does contain unsafe facts elsewhere -/
